@@ -41,14 +41,11 @@ impl<T> Definitions<T> {
         self.inner.is_empty()
     }
 
-    /// Retrieve a definition, if it exists; fail if not resolved
+    /// Retrieve a definition, if it exists. All registered definitions are 'Some'; the 'None'
+    /// state is only transient during registration, or comes from a `null` in a blueprint
+    /// file, which is no definition.
     pub fn lookup(&self, reference: &Reference) -> Option<&T> {
-        self.inner
-            .get(&reference.as_key())
-            .map(|v| v
-              .as_ref()
-              .expect("All registered definitions are 'Some'. 'None' state is only transient during registration")
-            )
+        self.inner.get(&reference.as_key()).and_then(|v| v.as_ref())
     }
 
     /// Retrieve a definition, if it exists and is resolved.
